@@ -37,7 +37,7 @@ def showInt (i : Int) : List Nat :=
 
 /-! ### which variant of the code is modelled -/
 
-/-- Three places where the working tree may or may not have been repaired; the extractor reads them
+/-- The places where the working tree may or may not have been repaired; the extractor reads them
     from the source on every run (`Gen.ModeLayout`), the theorems are stated for every `Cfg`. -/
 structure Cfg where
   /-- `setctl_int(KEYPAD_APP)` stores the value in `mode.keypad`. -/
@@ -51,6 +51,9 @@ structure Cfg where
       a DECRPM / DECRQSS reply that arrives afterwards: `setctl_int` marks the field `initialised` and the
       reply handlers only fill in fields that are not. -/
   repliesGuarded : Bool
+  /-- an RGB8 capability the program has forced through `xterm.cap_rgb8` is no longer overwritten by the
+      terminal's SGR DECRQSS reply that arrives afterwards (`initialised.rgb8`). -/
+  rgb8Guarded : Bool
 deriving DecidableEq, Repr
 
 /-- The variant the working tree has. -/
@@ -58,10 +61,12 @@ def Cfg.tree : Cfg :=
   { keypadRecorded := ModeLayout.keypadRecorded
     resumeResendsPen := ModeLayout.resumeResendsPen
     underStyleSafe := ModeLayout.underStyleSafe
-    repliesGuarded := ModeLayout.repliesGuarded }
+    repliesGuarded := ModeLayout.repliesGuarded
+    rgb8Guarded := ModeLayout.rgb8Guarded }
 
 /-- The variant with all three repairs. -/
-def Cfg.repaired : Cfg := { keypadRecorded := true, resumeResendsPen := true, underStyleSafe := true, repliesGuarded := true }
+def Cfg.repaired : Cfg :=
+  { keypadRecorded := true, resumeResendsPen := true, underStyleSafe := true, repliesGuarded := true, rgb8Guarded := true }
 
 /-! ## Part 1 — the xterm driver -/
 
@@ -95,6 +100,8 @@ structure Inits where
   cursorblink : Nat := 0
   cursorshape : Nat := 0
   slrm        : Nat := 0
+  /-- only in a tree with the `rgb8Guarded` repair -/
+  rgb8        : Nat := 0
 deriving DecidableEq, Repr
 
 /-- `struct XTermDriver` after `new()`. -/
@@ -103,6 +110,9 @@ structure XDrv where
   cap  : Caps := {}
   init : Inits := {}
 deriving DecidableEq, Repr
+
+/-- `xd->cap.rgb8` as a truth value. -/
+def XDrv.rgbOn (d : XDrv) : Bool := decide (d.cap.rgb8 ≠ 0)
 
 /-- The controls `setctl_int`/`getctl_int`/`setctl_str` distinguish; every other number is `none`. -/
 inductive Ctl
@@ -164,7 +174,8 @@ def startBytes : Out :=
 def setctlInt (cfg : Cfg) (d : XDrv) (ctl : Option Ctl) (value : Int) : XDrv × Out × Bool :=
   match ctl with
   | some .capRgb8 =>
-    ({ d with cap := { d.cap with rgb8 := wrapU ModeLayout.w_cap_rgb8 (bool01 value) } }, [], true)
+    ({ d with cap := { d.cap with rgb8 := wrapU ModeLayout.w_cap_rgb8 (bool01 value) }
+              init := { d.init with rgb8 := if cfg.rgb8Guarded then 1 else d.init.rgb8 } }, [], true)
   | some .altscreen =>
     if decide (d.mode.altscreen = 0) = decide (value = 0) then (d, [], true)
     else ({ d with mode := { d.mode with altscreen := wrapU ModeLayout.w_mode_altscreen (bool01 value) } },
@@ -243,10 +254,10 @@ def onDecrqssShape (cfg : Cfg) (d : XDrv) (value : Int) : XDrv :=
            init := { d.init with cursorshape := wrapU ModeLayout.w_initialised_cursorshape 1 } }
 
 /-- `on_decrqss` for an SGR reply, abstracted to what it concludes (sub-parameter separator, RGB). -/
-def onDecrqssSgr (d : XDrv) (colon rgb : Bool) : XDrv :=
+def onDecrqssSgr (cfg : Cfg) (d : XDrv) (colon rgb : Bool) : XDrv :=
   { d with cap := { d.cap with
       csiSubColon := if colon then wrapU ModeLayout.w_cap_csi_sub_colon 1 else d.cap.csiSubColon
-      rgb8 := if rgb then wrapU ModeLayout.w_cap_rgb8 1 else d.cap.rgb8 } }
+      rgb8 := if rgb ∧ (!cfg.rgb8Guarded || d.init.rgb8 = 0) then wrapU ModeLayout.w_cap_rgb8 1 else d.cap.rgb8 } }
 
 /-- `teardown` (the vtable's `stop` and `pause`). -/
 def drvTeardown (d : XDrv) : Out :=
@@ -281,8 +292,24 @@ def Attr.kind : Attr → AttrKind
   | .under | .altfont | .sizepos => .int
   | _ => .bool
 
-/-- A pen as a partial map (index colours only: no RGB8 secondaries in this engine). -/
+/-- A pen as a partial map.  A colour value is either a palette index `-1 … 255` (`-1` = default colour), or
+    `rgbEnc index r g b`: the palette index together with its RGB8 refinement (`valid.fg_rgb8` set).  The
+    encoding is injective, so `tickit_pen_equiv_attr` is equality of values. -/
 abbrev PenMap := Attr → Option Int
+
+/-- Palette index `idx` (`-1 … 255`) refined by the RGB8 triple `r g b`. -/
+def rgbEnc (idx : Int) (r g b : Nat) : Int := 1000 + ((((idx + 1).toNat * 256 + r) * 256 + g) * 256 + b : Nat)
+
+/-- `tickit_pen_has_colour_attr_rgb8`. -/
+def hasRgb (v : Int) : Bool := decide (1000 ≤ v)
+
+/-- `tickit_pen_get_colour_attr`. -/
+def colIndex (v : Int) : Int := if v < 1000 then v else (v - 1000) / 16777216 - 1
+
+/-- `tickit_pen_get_colour_attr_rgb8(...).r / .g / .b`. -/
+def colR (v : Int) : Int := (v - 1000) / 65536 % 256
+def colG (v : Int) : Int := (v - 1000) / 256 % 256
+def colB (v : Int) : Int := (v - 1000) % 256
 
 def PenMap.empty : PenMap := fun _ => none
 
@@ -300,7 +327,7 @@ def nondefaultAttr (p : PenMap) (a : Attr) : Bool :=
   | some v => match a.kind with
     | .bool => v ≠ 0
     | .int => v > 0
-    | .colour => v ≠ -1
+    | .colour => colIndex v ≠ -1
 
 /-- `tickit_pen_is_nondefault`. -/
 def isNondefault (p : PenMap) : Bool := Attr.all.any (nondefaultAttr p)
@@ -311,18 +338,25 @@ structure Param where
   sub : Bool
 deriving DecidableEq, Repr
 
-/-- The colour arm of `chpen` (`on` = 30/40, `off` = 39/49); RGB8 never applies here. -/
-def colourParams (on off v : Int) : List Param :=
-  if v < 0 then [⟨off, false⟩]
-  else if v < 8 then [⟨on + v, false⟩]
-  else if v < 16 then [⟨on + 60 + v - 8, false⟩]
-  else [⟨on + 8, true⟩, ⟨5, true⟩, ⟨v, false⟩]
+/-- The colour arm of `chpen` (`on` = 30/40, `off` = 39/49) for a palette index `val`. -/
+def paletteParams (on off val : Int) : List Param :=
+  if val < 0 then [⟨off, false⟩]
+  else if val < 8 then [⟨on + val, false⟩]
+  else if val < 16 then [⟨on + 60 + val - 8, false⟩]
+  else [⟨on + 8, true⟩, ⟨5, true⟩, ⟨val, false⟩]
 
-/-- The `switch(attr)` of `chpen` for one attribute present in `delta` with value `v`. -/
-def attrParams (a : Attr) (v : Int) : List Param :=
+/-- The colour arm of `chpen`: `val < 0` first, then `xd->cap.rgb8 && tickit_pen_has_colour_attr_rgb8`, then
+    the palette arms. -/
+def colourParams (rgb8 : Bool) (on off v : Int) : List Param :=
+  if colIndex v < 0 then [⟨off, false⟩]
+  else if rgb8 && hasRgb v then [⟨on + 8, true⟩, ⟨2, true⟩, ⟨colR v, true⟩, ⟨colG v, true⟩, ⟨colB v, false⟩]
+  else paletteParams on off (colIndex v)
+
+/-- The `switch(attr)` of `chpen` for one attribute present in `delta` with value `v` (`rgb8` = `xd->cap.rgb8`). -/
+def attrParams (rgb8 : Bool) (a : Attr) (v : Int) : List Param :=
   match a with
-  | .fg => colourParams 30 39 v
-  | .bg => colourParams 40 49 v
+  | .fg => colourParams rgb8 30 39 v
+  | .bg => colourParams rgb8 40 49 v
   | .bold => [⟨if v ≠ 0 then 1 else 22, false⟩]
   | .under => if v = 0 then [⟨24, false⟩] else if v = 1 then [⟨4, false⟩] else [⟨4, true⟩, ⟨v, false⟩]
   | .italic => [⟨if v ≠ 0 then 3 else 23, false⟩]
@@ -333,20 +367,20 @@ def attrParams (a : Attr) (v : Int) : List Param :=
   | .sizepos => if v = 0 then [⟨75, false⟩] else if v = 2 then [⟨73, false⟩] else if v = 3 then [⟨74, false⟩] else []
 
 /-- The loop over `attr = 1 … TICKIT_N_PEN_ATTRS-1`. -/
-def deltaParams (delta : PenMap) : List Param :=
+def deltaParams (rgb8 : Bool) (delta : PenMap) : List Param :=
   Attr.all.flatMap fun a => match delta a with
     | none => []
-    | some v => attrParams a v
+    | some v => attrParams rgb8 a v
 
 /-- The `TICKIT_PEN_UNDER` arm where it has been repaired (`single` = the repair is present and the
     terminal has no `:` sub-parameters): a style ≥ 2 becomes one parameter. -/
-def attrParams' (single : Bool) (a : Attr) (v : Int) : List Param :=
-  if single ∧ a = .under ∧ v ≠ 0 ∧ v ≠ 1 then [⟨if v = 2 then 21 else 4, false⟩] else attrParams a v
+def attrParams' (single rgb8 : Bool) (a : Attr) (v : Int) : List Param :=
+  if single ∧ a = .under ∧ v ≠ 0 ∧ v ≠ 1 then [⟨if v = 2 then 21 else 4, false⟩] else attrParams rgb8 a v
 
-def deltaParams' (single : Bool) (delta : PenMap) : List Param :=
+def deltaParams' (single rgb8 : Bool) (delta : PenMap) : List Param :=
   Attr.all.flatMap fun a => match delta a with
     | none => []
-    | some v => attrParams' single a v
+    | some v => attrParams' single rgb8 a v
 
 /-- Rendering `params[]` between `ESC [` and `m`. -/
 def renderParams (colon : Bool) : List Param → Out
@@ -356,7 +390,7 @@ def renderParams (colon : Bool) : List Param → Out
 
 /-- `chpen(delta, final)`. -/
 def drvChpen (cfg : Cfg) (d : XDrv) (delta final : PenMap) : Out :=
-  let ps := deltaParams' (cfg.underStyleSafe && decide (d.cap.csiSubColon = 0)) delta
+  let ps := deltaParams' (cfg.underStyleSafe && decide (d.cap.csiSubColon = 0)) d.rgbOn delta
   if ps.isEmpty then []
   else [27, 91] ++ renderParams (d.cap.csiSubColon ≠ 0) (if isNondefault final then ps else []) ++ [109]
 
@@ -376,7 +410,7 @@ deriving DecidableEq, Repr
 def applyReply (cfg : Cfg) (d : XDrv) : Reply → XDrv
   | .mode m v => onModereport cfg d m v
   | .shape v => onDecrqssShape cfg d v
-  | .sgr c r => onDecrqssSgr d c r
+  | .sgr c r => onDecrqssSgr cfg d c r
 
 /-- The xterm driver's `started()`. -/
 def drvStarted (d : XDrv) : Bool :=
@@ -493,6 +527,8 @@ structure StepRes where
   out : Out := []
   ret : Option Bool := none
   bad : Bool := false
+  /-- the call ends with `tickit_term_flush` (after everything it writes) -/
+  flush : Bool := false
 
 def Sys.step (cfg : Cfg) (s : Sys) : Op → StepRes
   | .ctl c v =>
@@ -509,27 +545,27 @@ def Sys.step (cfg : Cfg) (s : Sys) : Op → StepRes
     { sys := { s with term := r.1 }, out := r.2 }
   | .print bytes => { sys := s, out := bytes }
   | .clear => { sys := s, out := clearScreen }
-  | .flush => { sys := s }
+  | .flush => { sys := s, flush := true }
   | .replyMode m v => { sys := { s with term := Term.reply cfg s.term (.mode m v) } }
   | .replyShape v => { sys := { s with term := Term.reply cfg s.term (.shape v) } }
   | .replySgr c r => { sys := { s with term := Term.reply cfg s.term (.sgr c r) } }
   | .await msec => { sys := { s with term := Term.await s.term msec } }
   | .pause =>
     let r := Term.pause s.term
-    { sys := { s with term := r.1 }, out := r.2 }
+    { sys := { s with term := r.1 }, out := r.2, flush := true }
   | .resume =>
     let r := Term.resume cfg s.term
     { sys := { s with term := r.1 }, out := r.2 }
   | .teardown =>
     let r := Term.teardown s.term
-    { sys := { s with term := r.1 }, out := r.2 }
+    { sys := { s with term := r.1 }, out := r.2, flush := true }
   | .tick nosetup =>
     match s.top with
     | none => { sys := s, bad := true }
     | some top =>
       if !top.doneSetup && !nosetup then
         let r := setupterm cfg top s.term
-        { sys := { term := r.2.1, top := some r.1 }, out := r.2.2 }
+        { sys := { term := r.2.1, top := some r.1 }, out := r.2.2, flush := true }
       else { sys := s }
   | .usealt v =>
     match s.top with
@@ -542,6 +578,44 @@ def Sys.step (cfg : Cfg) (s : Sys) : Op → StepRes
 def Sys.destroy (s : Sys) : Out :=
   let r := Term.teardown s.term
   r.2 ++ (Term.teardown r.1).2
+
+/-- The owner drops its reference while `extra` other references to the terminal exist: `tickit_unref` of the
+    toplevel instance (`tickit_destroy`: `tickit_term_teardown`, then `tickit_term_unref`), else
+    `tickit_term_unref` of the terminal.  The terminal is destroyed only with its last reference.  Result: what
+    is left (`none`: the terminal is gone) and the bytes written; every path that writes ends with a flush. -/
+def Sys.dropOwner (s : Sys) (extra : Nat) : Option Sys × Out :=
+  match s.top with
+  | some _ =>
+    let r := Term.teardown s.term
+    if extra = 0 then (none, r.2 ++ (Term.teardown r.1).2) else (some { term := r.1, top := none }, r.2)
+  | none => if extra = 0 then (none, s.destroy) else (some s, [])
+
+/-! ### the terminal's output buffer (`write_str`, `tickit_term_flush`) -/
+
+/-- `outbuffer_len` (`0`: no buffer, every write goes to the output function at once) and the bytes in
+    `outbuffer[0 … outbuffer_cur)`. -/
+structure OBuf where
+  cap  : Nat := 0
+  pend : Out := []
+deriving DecidableEq, Repr
+
+/-- `write_str` for all the bytes one call of the library writes: the buffer is handed to the output function
+    every time it is full, so what goes out is the longest prefix that is a multiple of the buffer's length.
+    Result: the buffer and the bytes delivered. -/
+def OBuf.write (b : OBuf) (bytes : Out) : OBuf × Out :=
+  if b.cap = 0 then ({ b with pend := [] }, b.pend ++ bytes)
+  else
+    let all := b.pend ++ bytes
+    let k := all.length / b.cap * b.cap
+    ({ b with pend := all.drop k }, all.take k)
+
+/-- `tickit_term_flush`. -/
+def OBuf.flush (b : OBuf) : OBuf × Out := ({ b with pend := [] }, b.pend)
+
+/-- One call of the library on a buffered terminal: it writes `bytes` and, if `fl`, ends with a flush. -/
+def OBuf.call (b : OBuf) (bytes : Out) (fl : Bool) : OBuf × Out :=
+  let w := b.write bytes
+  if fl then ((w.1.flush).1, w.2 ++ (w.1.flush).2) else w
 
 def Sys.build (toplevel : Bool) : Sys × Out :=
   ({ term := Term.build.1, top := if toplevel then some {} else none }, Term.build.2)
@@ -746,19 +820,24 @@ def VT.feed (vt : VT) (bytes : List Nat) : VT := bytes.foldl VT.step vt
 
 /-! ### the meaning of pen values on the terminal -/
 
-/-- The terminal's value for pen attribute `a` holding `v` (only `altfont` is not the identity: the
-    font number is `v` for `0…9` and the primary font otherwise). -/
-def sem (a : Attr) (v : Int) : Int :=
+/-- The terminal's value for pen attribute `a` holding `v`: the font number is `v` for `0…9` and the primary
+    font otherwise; a colour is its palette index, or - on a terminal with 24-bit colours (`rgb8`) - its RGB8
+    refinement when it has one; every other attribute is the identity. -/
+def sem (rgb8 : Bool) (a : Attr) (v : Int) : Int :=
   match a with
   | .altfont => if v < 0 ∨ v ≥ 10 then 0 else v
+  | .fg | .bg =>
+    if colIndex v < 0 then -1
+    else if rgb8 && hasRgb v then rgbCode (colR v).toNat (colG v).toNat (colB v).toNat
+    else colIndex v
   | _ => v
 
 /-- Values for which the xterm driver has an exact encoding (whether the encoding itself is right
-    for every value is property C10, not C12): palette indexes, booleans, underline off/single,
-    any font, size/position without the undocumented `SMALL`. -/
+    for every value is property C10, not C12): palette indexes with or without an RGB8 refinement, booleans,
+    underline off/single, any font, size/position without the undocumented `SMALL`. -/
 def inDomain (a : Attr) (v : Int) : Bool :=
   match a with
-  | .fg | .bg => decide (-1 ≤ v ∧ v ≤ 255)
+  | .fg | .bg => decide ((-1 ≤ v ∧ v ≤ 255) ∨ (1000 ≤ v ∧ v < 1000 + 257 * 16777216))
   | .under => decide (v = 0 ∨ v = 1)
   | .altfont => decide (-1 ≤ v ∧ v ≤ 10)
   | .sizepos => decide (v = 0 ∨ v = 2 ∨ v = 3)
@@ -781,6 +860,13 @@ def opOk : Op → Bool
   | .setpen p => penInDomain p
   | .chpen p => penInDomain p
   | _ => true
+
+/-- The pen holds a colour whose rendering depends on the terminal's RGB8 capability (an RGB8 refinement
+    of a non-default palette index). -/
+def capSensitive (p : PenMap) : Bool :=
+  [Attr.fg, Attr.bg].any fun a => match p a with
+    | some v => hasRgb v && decide (0 ≤ colIndex v)
+    | none => false
 
 inductive Phase | running | paused | stopped
 deriving DecidableEq, Repr
@@ -816,6 +902,7 @@ structure Ghost where
   keypad : Int := 0
   blink  : Option Int := none
   shape  : Option Int := none
+  rgb8   : Option Int := none
   pen    : PenMap := PenMap.empty
   doneSetup : Bool := false
 
@@ -827,6 +914,7 @@ def Ghost.set (g : Ghost) (c : Option Ctl) (v : Int) : Ghost :=
   | some .cursorblink => { g with blink := some (bool01 v) }
   | some .mouse => { g with mouse := v }
   | some .cursorshape => { g with shape := if 0 ≤ v ∧ v ≤ 3 then some v else none }
+  | some .capRgb8 => { g with rgb8 := some (bool01 v) }
   | _ => g
 
 /-- Ghost after one operation; `ret` is the call's return value, `ua` what the toplevel instance's
@@ -854,11 +942,19 @@ def modesShown (m : VModes) (g : Ghost) : Bool :=
   decide ((m.mouse : Int) = modeForMouse g.mouse) && m.sgrMouse == decide (g.mouse ≠ 0) &&
   m.keypadApp == decide (g.keypad ≠ 0)
 
-/-- The terminal renders with the pen asked for (every attribute asked for, exact encodings). -/
-def penShown (a : Attrs) (pen : PenMap) : Bool :=
+/-- The terminal (with 24-bit colours iff `rgb8`) renders with the pen asked for (every attribute asked
+    for, exact encodings). -/
+def penShown (rgb8 : Bool) (a : Attrs) (pen : PenMap) : Bool :=
   Attr.all.all fun k => match pen k with
-    | some v => !inDomain k v || a k == sem k v
+    | some v => !inDomain k v || a k == sem rgb8 k v
     | none => true
+
+/-- Contract about the RGB8 capability: the operation does not change it (forcing it through the control, or a
+    late SGR reply of the terminal) while the cached pen holds a colour that depends on it - such a colour keeps
+    the form it was sent in until it is sent again. -/
+def capKept (cfg : Cfg) (s : Sys) (op : Op) : Bool :=
+  !capSensitive s.term.pen ||
+    ((s.step cfg op).sys.term.drv.rgbOn == s.term.drv.rgbOn)
 
 /-- The terminal is back in the mode state `m0` and in the default rendition. -/
 def restoredOk (vt : VT) (m0 : VModes) : Bool :=
@@ -871,7 +967,8 @@ def getctlOk (d : XDrv) (g : Ghost) : Bool :=
   getctlInt d (some .altscreen) == some g.alt && getctlInt d (some .cursorvis) == some g.vis &&
   getctlInt d (some .mouse) == some g.mouse && getctlInt d (some .keypadApp) == some g.keypad &&
   (g.blink.isNone || getctlInt d (some .cursorblink) == g.blink) &&
-  (g.shape.isNone || getctlInt d (some .cursorshape) == g.shape)
+  (g.shape.isNone || getctlInt d (some .cursorshape) == g.shape) &&
+  (g.rgb8.isNone || getctlInt d (some .capRgb8) == g.rgb8)
 
 /-- The mode state a terminal is assumed to start in (the driver's own assumption): primary screen,
     cursor visible, no mouse reporting, numeric keypad; blink, shape and DECLRMM are free. -/
